@@ -120,15 +120,18 @@ def _line(case):
             c.true(name + "/contains/offline", not bool(r), "line contains a point 5%% of the scale away from it")
         # 3xN array form: one boolean per column, equal to the single-point answers
         ctol = TOL * S * max(1.0, float(np.linalg.norm(ww)))
-        cols = np.stack([p, off, p + wh * case["lam"], off + wh * case["lam"]], axis=1)
-        okc, r = c.lib(name + "/contains/matrix", lambda: ln.contains(cols.copy(), tol=ctol * max(1.0, abs(case["lam"]))))
-        if okc:
-            try:
-                got = [bool(b) for b in r]
-            except Exception:  # noqa
-                got = None
-            c.true(name + "/contains/matrix", got == [True, False, True, False],
-                   "contains(3x4 array of on/off/on/off-line points) gave %r" % (r,))
+        allcols = [p, off, p + wh * case["lam"], off + wh * case["lam"], p - wh * 0.5 * case["lam"]]
+        allwant = [True, False, True, False, True]
+        for ncol in (2, 3, 4, 5):                          # every column count (a 3x1 column is a single point), the square 3x3 case included
+            cols = np.stack(allcols[:ncol], axis=1)
+            okc, r = c.lib(name + "/contains/matrix", lambda: ln.contains(cols.copy(), tol=ctol * max(1.0, abs(case["lam"]))))
+            if okc:
+                try:
+                    got = [bool(b) for b in r]
+                except Exception:  # noqa
+                    got = None
+                c.true(name + "/contains/matrix", got == allwant[:ncol],
+                       "contains(3x%d array of on/off/on/off/on-line points) gave %r" % (ncol, r), ncol=ncol)
         # principal point: on the line, orthogonal to the direction, closest to the origin
         okpp, pp = c.lib(name + "/pp", lambda: ln.pp)
         if okpp:
